@@ -23,6 +23,7 @@ RULE = ('frames with 1-6 locals drawn from a sharing-heavy generator (same objec
         'default or (calibrated) small enough to be hit; non-trivial = snapshot delivered and the frame contains '
         'sharing, a cycle or a watch; distinct by canonical case')
 ASSUMPTIONS = ['identity of watch temporaries cannot be compared (they are freed); their type/text is compared instead']
+RULE += '; a watch on a structure of some two hundred values that is not in the frame, followed by watches on parts of it'
 REQUIRE = {'large_watch_followed_by_watches_on_its_parts': 40, 'capture_snapshots': 60, 'snapshots_checked': 300, 'references_resolved': 3000, 'shared_objects_seen': 100, 'cycles_seen': 50,
            'temp_watches': 200, 'budget_hit_cases': 10, 'locals_of_locals_cases': 10,
            'meetings_inside_the_collector': 15}
